@@ -176,7 +176,8 @@ pub fn check_masking_h(cx: &mut Cx, frame: &str, origin: &str, v: &Value, secret
                     // ... and never used twice (in this frame under another challenge, or in another
                     // frame of the run): two responses with one blinder give (s - s') / (c - c') = x
                     if blinder > 0 && !x.kind.starts_with("opening-randomness-of:") {
-                        let here = format!("{origin}:{rp}");
+                        let concrete = ls.iter().find(|(_, x)| std::ptr::eq(x, *s)).map(|(p, _)| p.clone()).unwrap_or_else(|| rp.clone());
+                        let here = format!("{origin}:{concrete}");
                         if let Some(prev) = hist.blinders.get(&blinder.to_string_radix(16)) { if *prev != here { cx.violation("C19", format!("{frame}/{rp}/blinder-reused/{}", x.kind), format!("the blinding term of {here} (for the sender's {}) was already used by {prev}: the difference of the two responses divided by the difference of their challenges is the secret", x.kind)); } }
                         else { hist.blinders.insert(blinder.to_string_radix(16), here); }
                     }
